@@ -6,10 +6,11 @@
    at most the mean of the per-scenario optima, at least the expected value of every present decision with feasible recourse,
    and equal to the deterministic optimum when all scenarios coincide.  Robust target: the worst case of the robust solution is
    at least that of every feasible point and at most the smallest per-scenario optimum.
-   Not proved (checked per instance by correspondence): that the bounds and the scaled cost vector of the extended problem are
-   those of SLP.slp_lp's two-stage reading (index arithmetic of the duplicated future block). *)
+   Proved in addition (SLPProofs.v): every feasible extended point projects to feasible scenario points sharing the present.
+   Not proved (checked per instance by correspondence): the converse embedding and that the scaled cost vector realises
+   'present value + mean of the scenario future values' (index arithmetic of the duplicated future block). *)
 From Coq Require Import QArith ZArith List Bool.
-From EAO Require Import Num LP SLP.
+From EAO Require Import Num LP SLP SLPProofs.
 Import ListNotations.
 Open Scope Q_scope.
 
@@ -19,6 +20,15 @@ Theorem C17_scenarios_share_the_present :
    forall i, (i <= List.length cs)%nat -> Forall (row_ok (slp_point (nvars P) fut X i)) (lp_rows P)).
 Proof. exact slp_rows_ok. Qed.
 Print Assumptions C17_scenarios_share_the_present.
+
+(* every feasible point of the extended problem gives, in every scenario, a feasible point of the original problem (bounds and
+   rows), and all these points carry the same present variables *)
+Theorem C17_feasible_points_project :
+  forall (P : lp) fut cs X, wf_lp P -> List.length fut = nvars P -> feasible (slp_lp P fut cs) X ->
+  (forall i, (i <= List.length cs)%nat -> feasible P (slp_point (nvars P) fut X i)) /\
+  (forall i j, (j < nvars P)%nat -> nth j fut false = false -> nth j (slp_point (nvars P) fut X i) 0 = nth j X 0).
+Proof. exact slp_feasible_scenarios. Qed.
+Print Assumptions C17_feasible_points_project.
 
 Theorem C17_at_most_mean_of_scenario_optima :
   forall (F : vec -> vec -> Prop) (vp : vec -> Q) (vfs : list (vec -> Q)) (opts : list Q) p fs,
